@@ -567,6 +567,18 @@ def list_method(I, l, name, args, kwargs):
     p = I.heap[l.oid]
     if kwargs and name in ('remove', 'append', 'pop', 'index', 'insert', 'extend'):
         raise TargetExc(I.make_exception(TypeError, ['list.%s() takes no keyword arguments' % name], {}))
+    if isinstance(p, SSeqV) and name == 'index' and len(args) == 1:
+        # first position of x in a symbolic sequence (ValueError when absent)
+        xt = I.term_of(args[0])
+        j = smt.fresh_bound('j', INT)
+        rng = smt.And(smt.Le(smt.IntC(0), j), smt.Lt(j, smt.SeqLen(p.t)))
+        if not I.choose(smt.Exists([j], smt.And(rng, smt.Eq(smt.SeqNth(p.t, j), xt)))):
+            raise TargetExc(I.make_exception(ValueError, ['not in list'], {}))
+        k = I.fresh_term('index', INT, False)
+        I.assume(smt.And(smt.Le(smt.IntC(0), k), smt.Lt(k, smt.SeqLen(p.t)), smt.Eq(smt.SeqNth(p.t, k), xt)))
+        I.assume(smt.ForAll([j], smt.Implies(smt.And(smt.Le(smt.IntC(0), j), smt.Lt(j, k)),
+                                             smt.Not(smt.Eq(smt.SeqNth(p.t, j), xt)))))
+        return SInt(k)
     if isinstance(p, tuple):
         if name == 'append':
             I.heap[l.oid] = p + (args[0],)
